@@ -142,6 +142,10 @@ fn merges(a: usize, b: usize) -> Vec<Vec<bool>> {
 enum Inj {
     None,
     SaveLoad,
+    /// save+load before step `at` and again before step `at + 1`: the second save is taken from a
+    /// story that was itself loaded, one operation later (no flow switch in between whenever the
+    /// two steps belong to the same flow)
+    SaveLoadTwice,
     RemoveOther,
     AwayAndBack,
 }
@@ -157,10 +161,13 @@ fn interleave(flows: &[FlowSpec], paths: [&Vec<Op>; 2], merge: &[bool], inj: Inj
     let mut removed: Option<usize> = None;
     for (step, &m) in merge.iter().enumerate() {
         let fi = m as usize;
+        if step == at + 1 && inj == Inj::SaveLoadTwice {
+            ops.push((None, Op::LoadFresh));
+        }
         if step == at {
             match inj {
                 Inj::None => {}
-                Inj::SaveLoad => ops.push((None, Op::LoadFresh)),
+                Inj::SaveLoad | Inj::SaveLoadTwice => ops.push((None, Op::LoadFresh)),
                 Inj::AwayAndBack => {
                     ops.push((None, Op::SwitchFlow("zz".into())));
                     match cur {
@@ -249,6 +256,9 @@ pub fn check_program(prog: &Rc<Prog>, len: usize, default_variant: bool, injecti
                         for inj in [Inj::SaveLoad, Inj::RemoveOther, Inj::AwayAndBack] {
                             variants.push((inj, at));
                         }
+                        if at + 1 < merge.len() {
+                            variants.push((Inj::SaveLoadTwice, at));
+                        }
                     }
                 }
                 for (inj, at) in variants {
@@ -334,7 +344,7 @@ pub fn run(tier: Tier) -> i32 {
     stats.sample(json!({"program": program(0, 1).0, "source": program(0, 1).1}));
     let extra = mc_extras(
         &stats,
-        json!({"ops_per_flow": len, "scripts": SCRIPTS.iter().map(|s| s.0).collect::<Vec<_>>(), "program_pairs": n * n, "variants": ["two named flows", "default flow + named flow"], "interleavings": "all merges", "injection_points": "every position x {save+load, remove other flow, away and back}", "cases": cases.len(), "cases_done": done}),
+        json!({"ops_per_flow": len, "scripts": SCRIPTS.iter().map(|s| s.0).collect::<Vec<_>>(), "program_pairs": n * n, "variants": ["two named flows", "default flow + named flow"], "interleavings": "all merges", "injection_points": "every position x {save+load, save+load twice around one op, remove other flow, away and back}", "cases": cases.len(), "cases_done": done}),
         cases.len(),
         done,
         secs,
